@@ -15,7 +15,7 @@ This is an AUDIT. The library is claimed to satisfy the properties below. Your t
 
 For every suspected violation write a small self-contained Rust test using only the public API that FAILS (or panics / hangs with a bounded loop) on the unmodified code and states in a comment which clause of which property it contradicts: put them in {wt}/tests/src/audit_demo.rs (add `mod audit_demo;` to {wt}/tests/src/lib.rs), or for IO in {wt}/io/tests/audit_demo.rs. RUN them and keep only those that really fail. Be careful to distinguish a real violation from behaviour the property leaves unspecified (read the property text literally; padding bytes, error positions outside the stated clauses and the choice between equally acceptable error kinds are unspecified).
 
-Two behaviours are ALREADY KNOWN and must not be reported again: (1) a failed assign_in_place may leave the target changed (reset to empty / first fields already overwritten) and, when the new variant's last field is itself an unsized enum/struct that fails its own minimum-size check, even invalid; (2) #[flat(portable = true)] is accepted on enums with a u16/u32 tag, and a sized portable enum leaves unused payload bytes undefined.
+The following behaviours are ALREADY KNOWN and must not be reported again: (0) anything that needs a user-written #[repr(align(..))] / #[repr(packed)] next to #[flat], tag_type = "i8", a u128 length type, a zero-sized MESSAGE type in the IO layer, or dropping a partially polled async send future; the portable image of a FlexVec after in-place shrinking of a sealed item (capacity is representation); error positions that point at the start of the offending tag / UTF-8 sequence rather than at the individual wrong byte; (1) a failed assign_in_place may leave the target changed (reset to empty / first fields already overwritten) and, when the new variant's last field is itself an unsized enum/struct that fails its own minimum-size check, even invalid; (2) #[flat(portable = true)] is accepted on enums with a u16/u32 tag, and a sized portable enum leaves unused payload bytes undefined.
 
 DELIVERABLES in {out}/ : findings.txt — for each finding: property and clause, the exact counterexample, what the code does, what the property demands, and how sure you are; audit_demo.rs — copy of the test file; or, if after a thorough search you find nothing, findings.txt saying so and listing what you examined (at least 10 concrete scenarios you tried, with their outcome). Report back a short summary.
 
